@@ -1,7 +1,7 @@
 use rusty_common::*;
 use rusty_parser::{CaseBlock, CaseExpression, ExpressionPos, Operator, SelectCase, Statements};
 
-use super::{Instruction, InstructionGenerator, Visitor};
+use super::{Enclosing, Instruction, InstructionGenerator, Visitor};
 
 impl InstructionGenerator {
     pub fn generate_select_case_instructions(&mut self, s: SelectCase, pos: Position) {
@@ -12,8 +12,11 @@ impl InstructionGenerator {
             ..
         } = s;
         self.generate_eval_select_case_expr(expr, pos);
+        // a jump out of the blocks (GOTO, EXIT SUB / FUNCTION) must drop the value pushed above
+        self.for_path.push((pos, Enclosing::SelectCase));
         self.generate_case_blocks(case_blocks, else_block.is_some(), pos);
         self.generate_else_block(else_block, pos);
+        self.for_path.pop();
         self.label(labels::end_select(), pos);
         // need to pop value from stack because it was pushed by `generate_eval_select_case_expr`
         // (every path gets here, also the CASE blocks that matched and jump to the end)
